@@ -128,6 +128,7 @@ func genSequential(t *rapid.T) *workload {
 	s.IntervalUs = 300
 	s.WatchdogMs = watchdogMs
 	s.OpMarks = true
+	s.Pad = 48
 	genObjects(t, s, n, false)
 	s.Probes = []int{n - 3, n - 2, n - 1}
 	for _, p := range s.Probes {
@@ -352,7 +353,7 @@ func evaluateOnce(w *workload, objs []*fsobj.Obj, f fault) (o outcome, hang bool
 		if i < start {
 			// the per-thread counter of the main thread fired during start-up. A failed close there only leaks a
 			// descriptor (Go ignores it); anything else may break the helper itself => not a case of the domain
-			if e.Name != "close" {
+			if e.Name != "close" && !strings.HasPrefix(e.Args, "-1") { // "-1": the helper's padding calls
 				foreign = true
 			}
 			continue
@@ -466,7 +467,11 @@ func evaluateOnce(w *workload, objs []*fsobj.Obj, f fault) (o outcome, hang bool
 				return
 			}
 			if affected && rr.Ops[k].State == fshelper.StOK {
-				o.labels = append(o.labels, "affected-op-still-succeeded")
+				// "the affected writes report an error": with one sequential writer every failing call between the
+				// operation's markers belongs to that operation (its directories, its temp file, its batch file
+				// including the sync/close the writer waits for), so success means the failure was swallowed
+				o.viol = fmt.Sprintf("operation %d %s reports success although a file-system call it made failed%s", k, flat[k], ctx())
+				return
 			}
 		}
 	} else {
